@@ -108,9 +108,46 @@ def bl_value(mode, min_bl):
 
 def family_a(tier):
     if tier == "quick":
-        max_fields, alphabet, gaps, bls = 2, ALPHA_QUICK[:5], [None, 3], ["implicit", "plus5"]
+        plans = [(2, ALPHA_QUICK[:5], [None, 3], ["implicit", "plus5"], ("root", "root+flat+data", "flat-entry", "nested-entry"))]
     else:
-        max_fields, alphabet, gaps, bls = 3, ALPHA_QUICK, [None, 0, 3], ["implicit", "exact", "plus5"]
+        # thorough: the full alphabet / gap / blockLength product up to two fields in all four placements, and three-field
+        # lists over the five most structure-relevant kinds in the two placements that differ most
+        plans = [(2, ALPHA_QUICK, [None, 0, 3], ["implicit", "exact", "plus5"], ("root", "root+flat+data", "flat-entry", "nested-entry")),
+                 (3, ALPHA_QUICK[:5], [None, 3], ["implicit", "plus5"], ("root+flat+data", "nested-entry"))]
+    cyc = Cycler()
+    k = 0
+    for pi, (max_fields, alphabet, gaps, bls, placements) in enumerate(plans):
+      for spec, blm in level_layouts(max_fields, alphabet, gaps, bls):
+        if pi == 1 and len(spec) < 3:
+            continue
+        for placement in placements:
+            if tier == "quick" and placement == "root+flat+data" and len(spec) == 2:
+                continue    # quick: the two-field layouts are placed as root, flat entry and nested entry only
+            ids = Ids()
+            name = "a%d" % k
+            k += 1
+            desc = "A:%s:%s:%s" % (placement, ",".join("%s%s" % (key, "" if g is None else "+%d" % g) for key, g in spec), blm)
+            if placement == "root":
+                fields, mn = build_fields(spec, ids)
+                yield desc, Msg(name, k, fields, block_length=bl_value(blm, mn))
+            elif placement == "root+flat+data":
+                fields, mn = build_fields(spec, ids)
+                g = Group("g", ids.next(), [Field("x", ids.next(), "uint16")], dim=cyc.dim())
+                yield desc, Msg(name, k, fields, [g], [Data("d", ids.next(), cyc.data())], block_length=bl_value(blm, mn))
+            elif placement == "flat-entry":
+                fields, mn = build_fields(spec, ids)
+                g = Group("g", ids.next(), fields, dim=cyc.dim(), block_length=bl_value(blm, mn))
+                yield desc, Msg(name, k, [Field("r", ids.next(), "uint8")], [g])
+            else:
+                fields, mn = build_fields(spec, ids)
+                h = Group("h", ids.next(), [Field("y", ids.next(), "uint8")], dim=cyc.dim())
+                g = Group("g", ids.next(), fields, [h], [Data("gd", ids.next(), cyc.data())], dim=cyc.dim(),
+                          block_length=bl_value(blm, mn))
+                yield desc, Msg(name, k, [Field("r", ids.next(), "uint8")], [g], [Data("d", ids.next(), cyc.data())])
+
+
+def _family_a_old(tier):
+    max_fields, alphabet, gaps, bls = 2, ALPHA_QUICK[:5], [None, 3], ["implicit", "plus5"]
     cyc = Cycler()
     k = 0
     for spec, blm in level_layouts(max_fields, alphabet, gaps, bls):
